@@ -691,5 +691,5 @@ def _traversal(ctx: Ctx, rep: Report, f: Func) -> None:  # noqa: C901
 
 
 # what the later rounds (seeding rounds 2-5, refactor twins, defect hunt) added to what the check decides
-LATER_ROUNDS = "an empty nested group cannot send the descent back to the caller's own list, every rendering path starts with the number"
+LATER_ROUNDS = "an empty nested group cannot send the descent back to the caller's own list, every rendering path starts with the number, numbers paired with the items by zip() do not come from a fixed-end range"
 EXPLANATION = EXPLANATION.replace(" Does not decide", " Later rounds added: " + LATER_ROUNDS + ". Does not decide", 1) if " Does not decide" in EXPLANATION else EXPLANATION + " Later rounds added: " + LATER_ROUNDS + "."
